@@ -168,8 +168,10 @@ def hRemoveAt (parent : Node) : Hit → Except Err Node
 /-- first leaf element whose bytes equal `v` -/
 def removeFirst (v : Bytes) : List Node → List Node
   | [] => []
-  | .leaf raw :: rest => if raw = v then rest else .leaf raw :: removeFirst v rest
-  | x :: rest => x :: removeFirst v rest
+  | x :: rest =>
+    match x with
+    | .leaf raw => if raw = v then rest else x :: removeFirst v rest
+    | _ => x :: removeFirst v rest
 
 /-- `applyRemoveVal` -/
 def hRemoveVal (v : Bytes) (parent : Node) : Hit → Except Err Node
